@@ -70,13 +70,15 @@ pub struct Decl {
 #[derive(Clone, Debug)]
 pub enum TT {
     I,
+    /// covariable parameter of a destructor: a continuation expecting an i64
+    K,
     P(usize),
     D(&'static str, Vec<TT>),
 }
 
 fn inst(t: &TT, args: &[T]) -> T {
     match t {
-        TT::I => T::I,
+        TT::I | TT::K => T::I,
         TT::P(i) => args[*i].clone(),
         TT::D(n, a) => T::D(n.to_string(), a.iter().map(|x| inst(x, args)).collect()),
     }
@@ -84,7 +86,7 @@ fn inst(t: &TT, args: &[T]) -> T {
 
 fn show_tt(t: &TT) -> String {
     match t {
-        TT::I => "i64".into(),
+        TT::I | TT::K => "i64".into(),
         TT::P(i) => ["A", "B", "C"][*i].into(),
         TT::D(n, a) if a.is_empty() => n.to_string(),
         TT::D(n, a) => format!("{n}[{}]", a.iter().map(show_tt).collect::<Vec<_>>().join(", ")),
@@ -113,6 +115,8 @@ pub fn library() -> Vec<Decl> {
         Decl { name: "Fun2", params: 3, codata: true, xtors: vec![("apply2", vec![P(0), P(1)], Some(P(2)))] },
         Decl { name: "Stream", params: 1, codata: true, xtors: vec![("head", vec![], Some(P(0))), ("tail", vec![], Some(D("Stream", vec![P(0)])))] },
         Decl { name: "LPair", params: 2, codata: true, xtors: vec![("lfst", vec![], Some(P(0))), ("lsnd", vec![], Some(P(1)))] },
+        // destructors with covariable parameters (trailing and leading)
+        Decl { name: "Handler", params: 1, codata: true, xtors: vec![("handle", vec![P(0), K], Some(I)), ("pass", vec![K, I, P(0)], Some(P(0)))] },
     ]
 }
 
@@ -126,7 +130,7 @@ pub fn decl_text(d: &Decl) -> String {
             let a = if args.is_empty() {
                 String::new()
             } else {
-                format!("({})", args.iter().enumerate().map(|(i, t)| format!("{}: {}", names[i], show_tt(t))).collect::<Vec<_>>().join(", "))
+                format!("({})", args.iter().enumerate().map(|(i, t)| format!("{}{} {}", names[i], if matches!(t, TT::K) { " :cns" } else { ":" }, show_tt(t))).collect::<Vec<_>>().join(", "))
             };
             match ret {
                 Some(r) => format!("{n}{a}: {}", show_tt(r)),
@@ -337,7 +341,7 @@ impl<'a> G<'a> {
                 }
                 if k < 92 {
                     // destructor of a codata variable returning i64
-                    if let Some(e) = self.dtor_on_var(t, sc, depth) {
+                    if let Some(e) = self.dtor_on_var(t, sc, depth, false) {
                         return e;
                     }
                 }
@@ -365,12 +369,31 @@ impl<'a> G<'a> {
                     for (xn, xargs, ret) in &d.xtors {
                         let mut sc2 = Scope { vars: sc.vars.clone() };
                         let mut ids = Vec::new();
+                        let mut ks = Vec::new();
                         for a in xargs {
                             let id = self.fresh();
-                            sc2.vars.push((id, inst(a, args), false));
+                            let cv = matches!(a, TT::K);
+                            if cv {
+                                ks.push(id);
+                            }
+                            sc2.vars.push((id, inst(a, args), cv));
                             ids.push(id);
                         }
                         let rt = inst(ret.as_ref().unwrap(), args);
+                        if !ks.is_empty() && self.rng.pct(60) {
+                            // leave through the covariable parameter on one branch
+                            let c = self.pure(&T::I, &sc2, depth + 2);
+                            let v = self.pure(&T::I, &sc2, depth + 2);
+                            let other = if rt == *t { self.tiny_codata(t, &sc2) } else { self.pure(&rt, &sc2, depth + 2) };
+                            let jump = E::Goto(*self.rng.pick(&ks), Box::new(v));
+                            let body = if self.rng.pct(50) {
+                                E::If(self.rng.below(6), Box::new(c), None, Box::new(jump), Box::new(other))
+                            } else {
+                                E::If(self.rng.below(6), Box::new(c), None, Box::new(other), Box::new(jump))
+                            };
+                            clauses.push((xn.to_string(), ids, body));
+                            continue;
+                        }
                         // recursive codata (Stream.tail) must not recurse forever: reuse a variable or stop
                         let body = if rt == *t {
                             let same: Vec<usize> = sc2.vars.iter().filter(|(_, vt, cv)| !*cv && vt == t).map(|(i, _, _)| *i).collect();
@@ -481,8 +504,10 @@ impl<'a> G<'a> {
         Some(E::Case(Box::new(E::Var(v)), vt, clauses))
     }
 
-    fn dtor_on_var(&mut self, t: &T, sc: &Scope, depth: usize) -> Option<E> {
-        let mut cands: Vec<(usize, T, String, Vec<T>)> = Vec::new();
+    fn dtor_on_var(&mut self, t: &T, sc: &Scope, depth: usize, eff: bool) -> Option<E> {
+        let labels: Vec<usize> = sc.vars.iter().filter(|(_, vt, cv)| *cv && *vt == T::I).map(|(i, _, _)| *i).collect();
+        let have_label = !labels.is_empty();
+        let mut cands: Vec<(usize, T, String, Vec<(T, bool)>)> = Vec::new();
         for (i, vt, cv) in &sc.vars {
             if *cv {
                 continue;
@@ -491,8 +516,9 @@ impl<'a> G<'a> {
                 let d = self.decl(n);
                 if d.codata {
                     for (xn, xargs, ret) in &d.xtors {
-                        if inst(ret.as_ref().unwrap(), args) == *t {
-                            cands.push((*i, vt.clone(), xn.to_string(), xargs.iter().map(|a| inst(a, args)).collect()));
+                        let needs_label = xargs.iter().any(|a| matches!(a, TT::K));
+                        if inst(ret.as_ref().unwrap(), args) == *t && (!needs_label || have_label) {
+                            cands.push((*i, vt.clone(), xn.to_string(), xargs.iter().map(|a| (inst(a, args), matches!(a, TT::K))).collect()));
                         }
                     }
                 }
@@ -502,7 +528,18 @@ impl<'a> G<'a> {
             return None;
         }
         let (v, vt, xn, ats) = cands[self.rng.below(cands.len())].clone();
-        let es = ats.iter().map(|a| self.pure(a, sc, depth + 1)).collect();
+        let mut es = Vec::new();
+        for (a, cv) in &ats {
+            if *cv {
+                es.push(E::Var(*self.rng.pick(&labels)));
+            } else if eff && !self.is_codata(a) && self.rng.pct(self.cfg.eff_args_pct) {
+                // integer and data arguments of a destructor are evaluated left to right, before
+                // the scrutinee is observed
+                es.push(self.eff(a, sc, depth + 2));
+            } else {
+                es.push(self.pure(a, sc, depth + 1));
+            }
+        }
         Some(E::Dtor(Box::new(E::Var(v)), vt, xn, es))
     }
 
@@ -598,6 +635,39 @@ impl<'a> G<'a> {
                 return E::Let(x, T::I, Box::new(bound), Box::new(body));
             }
         }
+        if *t == T::I && self.cfg.codata_pct > 0 && self.rng.pct(6) {
+            // composite shape: an object whose destructor takes a covariable is invoked with a fresh
+            // label inside an operand, so that returning normally and leaving through the
+            // covariable give different results
+            let ht = T::D("Handler".into(), vec![T::I]);
+            let l = self.fresh();
+            let mut sc2 = Scope { vars: sc.vars.clone() };
+            sc2.vars.push((l, T::I, true));
+            let mut obj = None;
+            for _ in 0..6 {
+                let e = self.pure(&ht, &sc2, depth + 1);
+                if matches!(e, E::New(_)) {
+                    obj = Some(e);
+                    break;
+                }
+            }
+            if let Some(obj) = obj {
+                let h = self.fresh();
+                let mut sc3 = Scope { vars: sc2.vars.clone() };
+                sc3.vars.push((h, ht.clone(), false));
+                let a = self.pure(&T::I, &sc3, depth + 2);
+                let inv = if self.rng.pct(70) {
+                    E::Dtor(Box::new(E::Var(h)), ht.clone(), "handle".into(), vec![a, E::Var(l)])
+                } else {
+                    let b = self.pure(&T::I, &sc3, depth + 2);
+                    E::Dtor(Box::new(E::Var(h)), ht.clone(), "pass".into(), vec![E::Var(l), a, b])
+                };
+                let other = self.pure(&T::I, &sc3, depth + 2);
+                let op = *self.rng.pick(&[Op::Add, Op::Sub, Op::Mul]);
+                let body = if self.rng.pct(50) { E::Op(Box::new(other), op, Box::new(inv)) } else { E::Op(Box::new(inv), op, Box::new(other)) };
+                return E::Label(l, Box::new(E::Let(h, ht, Box::new(obj), Box::new(body))));
+            }
+        }
         if self.rng.pct(self.cfg.eff_args_pct) {
             // effects inside operands / arguments: evaluated innermost first, left to right
             match t {
@@ -638,13 +708,22 @@ impl<'a> G<'a> {
             return E::Let(x, bt, Box::new(b), Box::new(body));
         }
         if k < 45 {
-            let c = self.pure(&T::I, sc, depth + 2);
-            let snd = if self.rng.pct(50) { Some(Box::new(self.pure(&T::I, sc, depth + 2))) } else { None };
+            // the operands of a comparison are evaluated left to right, sometimes with effects
+            let (c, snd) = if self.rng.pct(self.cfg.eff_args_pct) {
+                (self.eff(&T::I, sc, depth + 3), if self.rng.pct(70) { Some(Box::new(self.eff(&T::I, sc, depth + 3))) } else { None })
+            } else {
+                (self.pure(&T::I, sc, depth + 2), if self.rng.pct(50) { Some(Box::new(self.pure(&T::I, sc, depth + 2))) } else { None })
+            };
             let a = self.eff(t, sc, depth + 1);
             let b = self.eff(t, sc, depth + 1);
             return E::If(self.rng.below(6), Box::new(c), snd, Box::new(a), Box::new(b));
         }
         if k < 58 {
+            if self.rng.pct(25) {
+                if let Some(e) = self.dtor_on_var(t, sc, depth, true) {
+                    return e;
+                }
+            }
             if let Some(e) = self.case_on_var(t, sc, depth, true) {
                 return e;
             }
